@@ -64,6 +64,8 @@ def cases(tier, seed):
         yield {"fam": "noise_threads", "i": i}
     for i in range(32 if tier == "quick" else 1200):
         yield {"fam": "processes", "i": i}
+    for i in range(8 if tier == "quick" else 96):
+        yield {"fam": "processes_fresh", "i": i}
 
 
 def setup(ctx):
@@ -585,6 +587,14 @@ def run(case, ctx):
     from vf import sched
 
     fam, i = case["fam"], case["i"]
+    if fam == "processes_fresh":
+        # the same process histories in an interpreter in which no aggregator has existed before: whatever the module
+        # creates on first use (locks, files, caches) is created in this history -- half of them with
+        # continue_file=False, where the constructor itself touches nothing
+        from vf import harness
+
+        harness.run_case_fresh(ctx, {"fam": "processes", "i": 4 + 5 * i if i % 2 == 0 else 3 + 4 * i, "fresh": True})
+        return
     r = gen.rng(ctx.seed, "c16", fam, i)
     det0 = {"family": fam}
     if fam in ("controlled", "dfs", "lines", "lines_eval") and not sched.T.locks_traced:
